@@ -15,6 +15,7 @@ import (
 type Cache struct {
 	entries map[string]clientEntries
 	mux     cacheMutex
+	maxAge  time.Duration // The largest clock skew any caller of GetReplayCache asked for
 }
 
 // clientEntries holds entries of client details sent to the service.
@@ -41,16 +42,36 @@ func GetReplayCache(d time.Duration) *Cache {
 	once.Do(func() {
 		replayCache = Cache{
 			entries: make(map[string]clientEntries),
+			maxAge:  d,
 		}
 		go func() {
 			for {
 				// TODO consider using a context here.
-				time.Sleep(d)
-				replayCache.ClearOldEntries(d)
+				time.Sleep(replayCache.getMaxAge())
+				replayCache.ClearOldEntries(replayCache.getMaxAge())
 			}
 		}()
 	})
+	// Entries must be kept for the largest skew in use, not for the skew of whoever called first.
+	replayCache.raiseMaxAge(d)
 	return &replayCache
+}
+
+func (c *Cache) getMaxAge() time.Duration {
+	c.mux.RLock()
+	defer c.mux.RUnlock()
+	return c.maxAge
+}
+
+func (c *Cache) raiseMaxAge(d time.Duration) {
+	if d <= c.getMaxAge() {
+		return
+	}
+	c.mux.Lock()
+	defer c.mux.Unlock()
+	if d > c.maxAge {
+		c.maxAge = d
+	}
 }
 
 // AddEntry adds an entry to the Cache.
